@@ -22,6 +22,8 @@ SELS = {
     "whole": slice(None), "from-50": slice(50, None), "reversed": slice(None, None, -1), "every-2nd": slice(0, None, 2), "every-3rd-reversed": slice(None, None, -3),
     "three-lines": np.array([0, n // 2, n - 1]), "every-7th-array": np.arange(0, n, 7), "mask-odd": (np.arange(n) % 2 == 1), "last-int": n - 1, "empty": slice(0, 0),
     "first-chunk": slice(0, 1), "window": slice(n // 3, n // 3 + 40),
+    # lines far apart in the file (megabytes of unselected lines between two selected ones of the same request group)
+    "every-14th": slice(0, None, 14), "ends": np.array([0, n - 1]), "first-middle-last-reversed": np.array([n - 1, n // 2, 0]), "every-19th-from-3": slice(3, None, 19),
 }
 def work(rpc):
     out = {}
@@ -52,6 +54,28 @@ def deep(k, rpc):
     return work(rpc) if k == 0 else deep(k - 1, rpc)
 res = {}
 ctx = spec["ctx"]
+if ctx == "many-trees":
+    # a long-running caller that keeps many opened trees around, each read from at least once (a catalogue, a mosaic), in a process with
+    # an ordinary descriptor limit: what a selection yields does not depend on how many other trees are alive
+    import resource
+    soft, hard = resource.getrlimit(resource.RLIMIT_NOFILE)
+    resource.setrlimit(resource.RLIMIT_NOFILE, (min(soft, 96), hard))
+    keep, out = [], {}
+    for k in range(160):
+        name = f"tree-{k}"
+        try:
+            tree = ceos_alos2.open_alos2(spec["dir"], backend_options={"use_cache": False, "records_per_chunk": spec["rpcs"][k % len(spec["rpcs"])]})
+            da = tree["imagery/" + spec["group"] + "/data"]
+            key = slice(k % (n - 3), k % (n - 3) + 3)
+            v = da.isel(rows=key).values
+            keep.append((tree, da))
+            out[name] = None if np.array_equal(v, twin.isel(rows=key).values) else "values differ from the in-memory image"
+        except BaseException as e:
+            out[name] = f"raised {type(e).__name__}: {str(e)[:120]} ({k} other opened trees are alive, each read from once; the in-memory image answers)"
+            break
+    res["many"] = out
+    spec["rpcs"] = []
+    resource.setrlimit(resource.RLIMIT_NOFILE, (soft, hard))
 for rpc in spec["rpcs"]:
     if ctx == "asyncio":
         import asyncio
@@ -72,16 +96,25 @@ json.dump(res, open(sys.argv[2], "w"))
 
 CONTEXTS = ["plain", "asyncio", "deep-300", "deep-500", "thread"]
 N = 1100
+WIDE = (40, 40000)
 
 
 def task(t):
     import numpy as np
 
     base = checklib.fresh_dir("ctxidx_")
-    b = product.build_product(level="1.5", images=(("HH", None, N, 2),), seed=t["seed"])
+    if t.get("wide"):
+        # 40 lines of 80 kB: two selected lines of one request group can lie more than a megabyte apart in the file
+        from . import bigimg
+
+        b = bigimg.build("1.5", WIDE[0], WIDE[1], t["seed"])
+        im = b.images[0]
+        np.save(os.path.join(base, "m.npy"), bigimg.expected_iu2(im["salt"], range(im["n"]), range(im["p"])))
+    else:
+        b = product.build_product(level="1.5", images=(("HH", None, N, 2),), seed=t["seed"])
+        im = b.images[0]
+        np.save(os.path.join(base, "m.npy"), np.array(im["raw"], dtype="uint16"))
     d = b.write(os.path.join(base, "product"))
-    im = b.images[0]
-    np.save(os.path.join(base, "m.npy"), np.array(im["raw"], dtype="uint16"))
     spec, out = os.path.join(base, "spec.json"), os.path.join(base, "out.json")
     json.dump({"dir": d, "group": im["group"], "matrix": os.path.join(base, "m.npy"), "ctx": t["ctx"], "rpcs": t["rpcs"]}, open(spec, "w"))
     env = checklib.worker_env(os.path.join(base, "xdg"))
@@ -106,9 +139,12 @@ def task(t):
 def run(chk):
     from . import layout as L
 
-    L.instances([dict(file="image", kind="processed", n=N, ndata=4, bps=2)])
+    L.instances([dict(file="image", kind="processed", n=N, ndata=4, bps=2), dict(file="image", kind="processed", n=1, ndata=2, bps=2),
+                 dict(file="image", kind="processed", n=WIDE[0], ndata=2 * WIDE[1], bps=2)])
     rpcs = [1, 2, 3, 1024] if chk.tier == "quick" else [1, 2, 3, 5, 7, 64, 1024, 1099, 1100]
     tasks = [dict(ctx=c, rpcs=rpcs, seed=chk.seed + 500 + i) for i, c in enumerate(CONTEXTS)]
+    tasks += [dict(ctx=c, rpcs=[1024, 20, 7], seed=chk.seed + 520 + i, wide=True) for i, c in enumerate(("plain", "thread"))]
+    tasks += [dict(ctx="many-trees", rpcs=[1, 7, 1024], seed=chk.seed + 530)]
     for res in checklib.pmap(task, tasks, chk.scratch, procs=len(tasks)):
         chk.count(res["n"], f"context:{res['task']['ctx']}")
         if res.get("twin_failed"):
@@ -118,9 +154,9 @@ def run(chk):
             if name in seen:
                 continue
             seen.add(name)
-            chk.violation(f"index:context:{res['task']['ctx']}:{name}", f"{N}-line image, records_per_chunk={rpc}, selection '{name}' made {res['task']['ctx']}: {msg}",
+            chk.violation(f"index:context:{res['task']['ctx']}:{name}", f"{'%d x %d' % WIDE if res['task'].get('wide') else '%d-line' % N} image, records_per_chunk={rpc}, selection '{name}' made {res['task']['ctx']}: {msg}",
                           {"task": res["task"], "selection": name, "rpc": rpc})
     chk.traces(len(tasks))
-    chk.rule_extra.append(f"calling contexts x many request groups: 12 selections of an {N}-line image (whole, windows, reversed, strided, arrays, mask, int, empty) with "
+    chk.rule_extra.append(f"calling contexts x many request groups: 16 selections of an {N}-line image (whole, windows, reversed, strided, arrays, mask, int, empty) with "
                           f"records_per_chunk in {rpcs} (up to {N} groups in one selection) made by a fresh interpreter from top-level code, inside a running asyncio loop, "
                           "300 and 500 frames deep, and from a worker thread; each compared with the in-memory image in the same context")
